@@ -287,7 +287,7 @@ func (s *script) honestRound(commitTo int) {
 // scenarioStaleHighQCAcrossRootUpdate (finding F-C01): a committee-preserving root-chain update arrives mid-height. Rounds
 // restart at 0 while locks are kept, and SafeNode compares rounds only: a PROPOSE_VOTE certificate for Y obtained at
 // (rootHeight 5, round a >= 1) and withheld outranks a lock on X taken at (rootHeight 6, round 0), after X was committed.
-func scenarioStaleHighQCAcrossRootUpdate(attack bool, verbose bool) (n *bftsim.Net, story []string, err error) {
+func scenarioStaleHighQCAcrossRootUpdate(attack bool, newRoot uint64, verbose bool) (n *bftsim.Net, story []string, err error) {
 	n, err = bftsim.New([]uint64{100, 100, 100, 100}, 5)
 	if err != nil {
 		return
@@ -316,10 +316,10 @@ func scenarioStaleHighQCAcrossRootUpdate(attack bool, verbose bool) (n *bftsim.N
 	say("root height 5, round %d: Byzantine leader proposes Y=%s, collects the PROPOSE_VOTE certificate, withholds PRECOMMIT", ra, lib.BytesToTruncatedString(Y.QC.BlockHash))
 	s.failRound()
 	for i := range n.Reps {
-		n.RootUpdate(i, 6)
+		n.RootUpdate(i, newRoot)
 	}
 	n.Reps[byz].B.HighQC = nil
-	say("root-chain block 6 arrives at every replica (same committee): NEW_COMMITTEE reset, round back to 0, locks kept")
+	say("root-chain notification for height %d arrives at every replica (same committee): NEW_COMMITTEE reset, locks kept; replica 0 is now at (root height %d, round %d)", newRoot, n.Reps[0].B.RootHeight, n.Reps[0].B.Round)
 	s.honestRound(0)
 	say("root height 6, round 0: an honest round decides X; COMMIT reaches replica 0 only; commits so far: %d; locks:%s", len(n.Commits), s.locks())
 	if len(n.Commits) == 0 {
